@@ -233,6 +233,11 @@ class AmplitudeChain(ModelDecay):
         lark = Lark(grammar, parser=parser, transformer=AmpGenTransformer(), **kargs)
         parsed = lark.parse(text)
 
+        # What is collected class-wide describes this file only
+        cls.all_particles = set()
+        cls.final_particles = set()
+        cls.cartesian = False
+
         (event_type,) = get_from_parser(parsed, "event_type")
 
         # invert_lines = get_from_parser(parsed, "invert_line")
